@@ -674,6 +674,11 @@ func (e *Exec) evalCall(x ECall, env *Env) Val {
 		return intVal("(s_base " + arg(0).T + ")")
 	case "off":
 		return intVal("(s_off " + arg(0).T + ")")
+	case "key48":
+		// the [48]byte value obtained by copying a byte slice into a zeroed [48]byte
+		v := arg(0)
+		h, hs := e.elemHeap(types.Typ[types.Uint8])
+		return Val{T: "(key48 " + Sel(e.get(env.st, h, hs), e.sbase(v.T)) + " " + e.soff(v.T) + " " + e.slen(v.T) + ")", S: ArrSort(SInt, SInt), Ty: types.NewArray(types.Typ[types.Uint8], 48)}
 	case "raw":
 		// raw(s, j): element j (absolute index) of the backing row of slice s
 		v := arg(0)
@@ -748,6 +753,25 @@ func (e *Exec) evalCall(x ECall, env *Env) Val {
 	case "max":
 		a, b := arg(0), arg(1)
 		return intVal("(ite (> " + a.T + " " + b.T + ") " + a.T + " " + b.T + ")")
+	case "deferred":
+		// the set of keys collected by the (unique) defer-in-loop of this function
+		if env.fr != nil {
+			for _, d := range env.fr.defers {
+				if d.set != "" {
+					srt := ArrSort(d.ksort, SBool)
+					return Val{T: e.get(env.st, d.set, srt), S: srt}
+				}
+			}
+			for _, b := range env.fr.fn.Blocks {
+				for _, ins := range b.Instrs {
+					if df, ok := ins.(*ssa.Defer); ok && inLoop(b) && len(df.Common().Args) == 1 {
+						srt := ArrSort(e.sortOf(df.Common().Args[0].Type()), SBool)
+						return Val{T: e.get(env.st, deferSetName(df), srt), S: srt}
+					}
+				}
+			}
+		}
+		e.unsupported("deferred() without a defer inside a loop")
 	case "visited":
 		// the visited set of the (unique) map iteration of the enclosing loop
 		if env.fr != nil {
